@@ -202,6 +202,7 @@ const chunkedHeader = "X-Hx-Chunked"
 
 // a scripted answer with this body is answered with a text naming the URL that was requested
 const echoBody = "@echo-url"
+const echoOriginBody = "@echo-origin"
 const remoteIP = "127.0.0.1"
 
 func (c RouteCase) sx() sx.V {
@@ -412,6 +413,10 @@ func (p *performer) Do(req *http.Request) (*http.Response, error) {
 	}
 	hook := p.hook
 	p.mu.Unlock()
+	if b.Body == echoOriginBody {
+		// a resource whose content depends on the Origin of the request
+		b.Body = "generated for origin " + req.Header.Get("Origin")
+	}
 	if b.Body == echoBody {
 		// a resource whose content depends on the whole URL it was asked for, query included
 		b.Body = "generated for " + req.URL.String()
